@@ -23,6 +23,15 @@ pub struct ProgCase {
     pub tracing: bool,
     pub warnings: bool,
     pub tick_cap: u32,
+    /// indices (in answer order) of input requests at which the host first breaks in and issues CONT
+    #[serde(default)]
+    pub await_breaks: Vec<u32>,
+    /// immediate lines issued at successive STOPs before CONT (TRACE / NOTRACE / PRINT 0 ...)
+    #[serde(default)]
+    pub stop_cmds: Vec<String>,
+    /// switch tracing on with the TRACE command instead of the API field
+    #[serde(default)]
+    pub trace_via_command: bool,
 }
 
 #[derive(Clone, Copy, Debug)]
@@ -87,6 +96,8 @@ pub struct LockOutcome {
     pub breaks_fired: u64,
     pub error: Option<String>,
     pub model: Model,
+    pub sess: Sess,
+    pub await_breaks_fired: u64,
 }
 
 /// Enter the program into a fresh session in the case's order.
@@ -117,7 +128,17 @@ pub fn run_lockstep(c: &ProgCase, cmp: Compare, ctx: &mut Ctx) -> Result<LockOut
     let prop = cmp.prop;
     let v = |class: &str, fp: String, detail: String| Violation::new(&format!("{prop}/{class}"), fp, detail);
     let mut s = Sess::new();
-    s.apply(&Op::Flags(c.tracing, c.warnings));
+    if c.trace_via_command {
+        s.apply(&Op::Flags(false, c.warnings));
+        if c.tracing {
+            let r = s.apply(&Op::Line("TRACE".into())).unwrap();
+            if !matches!(r.res, Res::Ok) || !r.recs.is_empty() {
+                return Err(v("trace-command", "TRACE".into(), format!("TRACE gave {:?} {:?}", r.res, r.recs)));
+            }
+        }
+    } else {
+        s.apply(&Op::Flags(c.tracing, c.warnings));
+    }
     enter_program(&mut s, c, prop)?;
     s.apply(&Op::Seed(c.seed));
     let mut m = Model::new(&c.lines, c.seed);
@@ -135,7 +156,10 @@ pub fn run_lockstep(c: &ProgCase, cmp: Compare, ctx: &mut Ctx) -> Result<LockOut
         breaks_fired: 0,
         error: None,
         model: Model::new(&[], 0),
+        sess: Sess::new(),
+        await_breaks_fired: 0,
     };
+    let mut stop_cmds = c.stop_cmds.iter();
     let mut breaks: Vec<u32> = c.breaks.clone();
     breaks.sort();
     breaks.dedup();
@@ -228,6 +252,9 @@ pub fn run_lockstep(c: &ProgCase, cmp: Compare, ctx: &mut Ctx) -> Result<LockOut
             rr.retain(|r| !matches!(r, Rec::Break(_)));
             mr.retain(|r| !matches!(r, Rec::Break(_)));
         }
+        if cmp.warnings && rr.iter().any(|r| matches!(r, Rec::Warning(..))) {
+            ctx.count("reach.warning_seen");
+        }
         if cmp.trace {
             rr = collapse_traces(rr);
             mr = collapse_traces(mr);
@@ -312,6 +339,29 @@ pub fn run_lockstep(c: &ProgCase, cmp: Compare, ctx: &mut Ctx) -> Result<LockOut
                 // answer until the reply is accepted (or storing it fails)
                 let mut done = false;
                 loop {
+                    if c.await_breaks.contains(&(out.inputs_answered as u32)) && out.await_breaks_fired < 50 {
+                        // break while the request is pending, then CONT: the request is re-issued once
+                        let b = s.apply(&Op::Break).unwrap();
+                        ctx.calls(1);
+                        if let Some(pn) = b.panicked() {
+                            return Err(v("panic", format!("panic@{pn}"), format!("Break while awaiting unwound: {pn}")));
+                        }
+                        let cont = s.apply(&Op::Line("CONT".into())).unwrap();
+                        ctx.calls(1);
+                        if let Some(pn) = cont.panicked() {
+                            return Err(v("panic", format!("panic@{pn}"), format!("CONT unwound: {pn}")));
+                        }
+                        let extra: Vec<&Rec> = cont.recs.iter().filter(|r| !matches!(r, Rec::Trace(_))).collect();
+                        if cont.state != St::Awaiting || cont.err().is_some() || !extra.is_empty() {
+                            return Err(v(
+                                "await-break-differs",
+                                format!("state={:?} err={:?}", cont.state, cont.err().map(|e| e.kind.clone())),
+                                format!("break while awaiting + CONT: expected the same request again, got state {:?} recs {:?} err {:?}", cont.state, cont.recs, cont.err()),
+                            ));
+                        }
+                        out.await_breaks_fired += 1;
+                        ctx.count("fault.break@awaiting+cont");
+                    }
                     let reply = replies.next().cloned().unwrap_or_else(default_reply);
                     let before = if cmp.reenter_probe { Some(s.probe(true)) } else { None };
                     s.apply(&Op::Reply(reply.text.clone()));
@@ -373,7 +423,8 @@ pub fn run_lockstep(c: &ProgCase, cmp: Compare, ctx: &mut Ctx) -> Result<LockOut
                                 format!("bad reply {:?}: expected exactly REENTER and the same request; got {:?} state {:?} err {:?}", reply.text, call.recs, call.state, call.err()),
                             ));
                         }
-                        if after != before {
+                        // (compare as text: NaN != NaN under PartialEq)
+                        if format!("{:?}", after) != format!("{:?}", before) {
                             return Err(v(
                                 "reenter-state-changed",
                                 "probe differs across REENTER".into(),
@@ -400,6 +451,22 @@ pub fn run_lockstep(c: &ProgCase, cmp: Compare, ctx: &mut Ctx) -> Result<LockOut
                     if out.stops > 200 {
                         break;
                     }
+                    if let Some(cmd) = stop_cmds.next() {
+                        let r = s.apply(&Op::Line(cmd.clone())).unwrap();
+                        ctx.calls(1);
+                        if let Some(pn) = r.panicked() {
+                            return Err(v("panic", format!("panic@{pn}"), format!("{cmd} at STOP unwound: {pn}")));
+                        }
+                        if r.recs.iter().any(|x| matches!(x, Rec::Trace(_))) {
+                            return Err(v("immediate-line-traced", cmd.clone(), format!("immediate line {cmd} produced {:?}", r.recs)));
+                        }
+                        match cmd.as_str() {
+                            "TRACE" => m.tracing = true,
+                            "NOTRACE" => m.tracing = false,
+                            _ => {}
+                        }
+                        ctx.count("fault.command_at_stop");
+                    }
                     start_op = Op::Line("CONT".into());
                     if let Err(e) = m.cont() {
                         return Err(v("harness", "model cont".into(), format!("{:?}", e)));
@@ -424,6 +491,7 @@ pub fn run_lockstep(c: &ProgCase, cmp: Compare, ctx: &mut Ctx) -> Result<LockOut
     }
     out.ticks = ticks;
     out.model = m;
+    out.sess = s;
     Ok(out)
 }
 
@@ -467,6 +535,25 @@ pub fn shrink_prog_case(c: &ProgCase) -> Vec<ProgCase> {
             n.replies = r;
             out.push(n);
         }
+    }
+    if !c.await_breaks.is_empty() {
+        for b in crate::engine::shrink_vec(&c.await_breaks) {
+            let mut n = c.clone();
+            n.await_breaks = b;
+            out.push(n);
+        }
+    }
+    if !c.stop_cmds.is_empty() {
+        for b in crate::engine::shrink_vec(&c.stop_cmds) {
+            let mut n = c.clone();
+            n.stop_cmds = b;
+            out.push(n);
+        }
+    }
+    if c.trace_via_command {
+        let mut n = c.clone();
+        n.trace_via_command = false;
+        out.push(n);
     }
     if c.tracing {
         let mut n = c.clone();
